@@ -220,7 +220,7 @@ class Check:
             elif op == 'skip-sub':
                 st['skip_subprojects'] = rng.choice(['*', IR.SUB, 'other'])
             elif op == 'skew':
-                st = {'op': 'skew', 'delta': rng.choice([-100, -1, 0, 1, 100]), 'which': rng.choice(['all', 'half'])}
+                st = {'op': 'skew', 'delta': rng.choice([-100, -1, -0.3, 0, 0.3, 0.3, 1, 100]), 'which': rng.choice(['all', 'half'])}
             elif op == 'userfile':
                 st = {'op': 'userfile', 'pick': rng.randrange(1000)}
             if st['op'] == 'install':
@@ -466,15 +466,17 @@ class Check:
             if st['op'] == 'skew':
                 # clock jump: move the mtimes of (some) sources relative to now
                 srcs = sorted(p for p, it in IR.snapshot(sd).items() if it[0] == 'file' and not p.endswith('meson.build'))
+                srcs += sorted(tf[0] for tf in self.target_files.values())      # built targets are sources of the install too
                 if st['which'] == 'half':
                     srcs = srcs[::2]
                 import time as _t
-                now = _t.time()
+                now_ns = int(_t.time()) * 10 ** 9 + 500_000_000          # mid-second: sub-second deltas stay within the second
+                d_ns = int(round(st['delta'] * 10 ** 9))
                 for p in srcs:
-                    os.utime(p, (now + st['delta'], now + st['delta']))
+                    os.utime(p, ns=(now_ns + d_ns, now_ns + d_ns))
                 for p, it in self.snap(destdir).items():
                     if it[0] == 'file':
-                        os.utime(p, (now, now))
+                        os.utime(p, ns=(now_ns, now_ns))
                 kinds.append(f"skew{st['delta']}")
                 add(faults, 'mtime-skew')
                 continue
@@ -681,14 +683,16 @@ class Check:
                     src = self.source_of(spec, sc.get('have_sub', False), destdir, sd, p)
                     if src is None or not os.path.exists(src) or p not in after:
                         continue
-                    src_ns = os.stat(src).st_mtime
-                    dst_s = ns / 1e9
+                    # both time stamps were set by the simulator (skew) or copied from one another by the install: compared exactly
+                    src_ns = os.stat(src).st_mtime_ns
                     touched = os.lstat(p).st_mtime_ns != ns
-                    if src_ns <= dst_s and touched and abs(src_ns - dst_s) > 0.5:
-                        return R.violation('only-changed-rewrote', f'step {si}: --only-changed rewrote {os.path.relpath(p, destdir)} although its source is older', 'only-changed-rewrote', **base)
-                    if src_ns > dst_s and not touched and abs(src_ns - dst_s) > 0.5:
-                        return R.violation('only-changed-skipped', f'step {si}: --only-changed kept {os.path.relpath(p, destdir)} although its source is newer', 'only-changed-skipped', **base)
-                    if abs(src_ns - dst_s) > 0.5:
+                    if src_ns <= ns and touched:
+                        return R.violation('only-changed-rewrote', f'step {si}: --only-changed rewrote {os.path.relpath(p, destdir)} although its source is not newer '
+                                           f'({(src_ns - ns) / 1e9:+.3f}s)', 'only-changed-rewrote', **base)
+                    if src_ns > ns and not touched:
+                        return R.violation('only-changed-skipped', f'step {si}: --only-changed kept {os.path.relpath(p, destdir)} although its source is newer '
+                                           f'({(src_ns - ns) / 1e9:+.3f}s)', 'only-changed-skipped', **base)
+                    if src_ns != ns and os.path.basename(p) not in self.target_files:
                         add(probes, 'only-changed-decided-by-mtime')
                         nontrivial = True
             # (e) the log names what was created
